@@ -1,3 +1,4 @@
+\* reference configuration (checks/c14.py generates the same text; thorough uses VIEW ViewFull)
 SPECIFICATION Spec
 INVARIANTS Agree CapOK EraseOK OnlyContribution TrapRule
 PROPERTIES PostStable
